@@ -56,6 +56,9 @@ def scenarios(n_max=3, cores=(1, 2), ncancel=1, time_limits=True, vias=("api",),
                             ops=[("enq", 0), ("enq", 1), ("enq", 2), ("enq", 3)], via="api"))
             out.append(dict(cores=c, tasks=[dict(deps=[], codes=(0,), payload=True), dict(deps=[0], codes=(0, 1))], ops=[("enq", 0), ("enq", 1)], via="api",
                             payloads={0: (b"x" * 70000, b"e"), 1: (b"o", b"")}))
+            # output that is not valid UTF-8 (Latin-1 text, binary data): logs hold the bytes as written, the task completes
+            out.append(dict(cores=c, tasks=[dict(deps=[], codes=(0,), payload=True), dict(deps=[0], codes=(0,))], ops=[("enq", 0), ("enq", 1)], via="api",
+                            payloads={0: (b"caf\xe9 \xff\xfe\x00 binary\n", b"\x80\x81 err\n"), 1: (b"", b"")}))
             out.append(dict(cores=c, tasks=[dict(deps=[], codes=(0,), time_limit=5.0), dict(deps=[0], codes=(0,))], ops=[("enq", 0), ("enq", 1)], via="api", kill_race=True))
             # the script left a command in its process group that ignores SIGTERM (e.g. `(trap '' TERM; exec tool) & wait`)
             out.append(dict(cores=c, tasks=[dict(deps=[], codes=(0,), stubborn=True), dict(deps=[0], codes=(0,))], ops=[("enq", 0), ("enq", 1), ("cancel", 0)], via="api"))
